@@ -166,15 +166,19 @@ const (
 	edEmpty               // empty content
 	edGrow                // content + one zero byte (lengths consistent)
 	edShrink              // content minus its last byte (lengths consistent)
+	edResize              // primitive content cut or zero-extended to arg bytes (prefix kept, lengths consistent): mis-sized fields
 	edKinds
 )
 
 var editNames = [edKinds]string{"len+1", "len-1", "longform", "indefinite", "hugelen", "tagflip", "retag", "int-sign",
-	"int-lead00", "int-leadff", "delete", "dup", "swap", "nest", "empty", "grow", "shrink"}
+	"int-lead00", "int-leadff", "delete", "dup", "swap", "nest", "empty", "grow", "shrink", "resize"}
+
+// sizes a primitive element is resized to (block-size and point-size neighbours)
+var resizes = []int{1, 2, 8, 15, 16, 17, 31, 33, 64}
 
 var retags = []byte{0x02, 0x03, 0x04, 0x05, 0x06, 0x0c, 0x30, 0x31}
 
-var editArgs = [edKinds]int{1, 1, 1, 1, 2, 5, len(retags), 1, 1, 1, 1, 1, 1, 3, 1, 1, 1}
+var editArgs = [edKinds]int{1, 1, 1, 1, 2, 5, len(retags), 1, 1, 1, 1, 1, 1, 3, 1, 1, 1, len(resizes)}
 
 // editsPerNode is the number of (kind, arg) pairs tried at every node.
 var editsPerNode = func() int {
@@ -315,6 +319,14 @@ func emitNode(n *node, ed *edit, ok *bool) []byte {
 		if len(c) > 0 {
 			*ok = true
 			return tlv(n.tag, c[:len(c)-1], lenMinimal)
+		}
+	case edResize:
+		l := resizes[ed.arg]
+		if n.tag[0]&0x20 == 0 && l != len(c) {
+			*ok = true
+			r := make([]byte, l)
+			copy(r, c)
+			return tlv(n.tag, r, lenMinimal)
 		}
 	}
 	return tlv(n.tag, c, lenMinimal)
